@@ -404,6 +404,12 @@ class Ctx:
         if len(self.samples) < 6:
             for r in body[:: max(1, len(body) // 3)][:3]:
                 self.samples.append({"harness": cmd, "record": records[r["i"]], "result": {k: v for k, v in r.items() if k != "i"}})
+        self._judge(cmd, records, bad, body, args, race, key_of, what_of, timeout, env, pkg, depth=0)
+        return body
+
+    def _judge(self, cmd, records, bad, body, args, race, key_of, what_of, timeout, env, pkg, depth):
+        """Groups the failing results by key, reproduces each group in a fresh process and reports what reproduces."""
+        hung_or_skipped = [r["i"] for r in body if r.get("skip") or (not r.get("ok") and r.get("key") == "hang")]
         # group by key, reproduce first of each group in a fresh process
         groups = {}
         for r in bad:
@@ -457,7 +463,33 @@ class Ctx:
                     again_keys.setdefault(k2, r)
             still = []
             batch_path = None
+            hang_key = "%s/hang/%s" % (self.pid, cmd)
+            hung2 = set(r["i"] for r in res2 if "i" in r and not r.get("ok") and r.get("key") == "hang")
+            complete2 = len([r for r in res2 if "i" in r]) == len(records)
             for k, first in unreproduced:
+                if k == hang_key:
+                    # A record without a result within the deadline.  Alone it finished in time (above).  It is a hang of
+                    # the library only if the batch, run again in a fresh process, stops at the SAME record; a machine
+                    # that is merely slow (other jobs, memory pressure) delays arbitrary records, and those are not
+                    # misbehaviour of the code under test.
+                    if set(r["i"] for r in groups.get(hang_key, [])) & hung2:
+                        pass        # reported below like any other batch-dependent misbehaviour
+                    elif complete2 and not hung2:
+                        # the second run gave every record a result: judge, from it, the records the first run left
+                        # without one (hung or skipped after repeated hangs)
+                        self.notes.setdefault("slow_records_rerun", 0)
+                        self.notes["slow_records_rerun"] += len(hung_or_skipped)
+                        self.log("%d record(s) of %s had no result within the deadline in the first run only (slow machine); "
+                                 "judged from the second run" % (len(hung_or_skipped), cmd))
+                        redo = set(hung_or_skipped)
+                        body2 = [r for r in res2 if "i" in r and r["i"] in redo]
+                        bad2 = [r for r in body2 if not r.get("ok")]
+                        if bad2 and depth < 1:
+                            self._judge(cmd, records, bad2, body2, args, race, key_of, what_of, timeout, env, pkg, depth + 1)
+                        continue
+                    else:
+                        still.append((k, first))
+                        continue
                 if k in again_keys:
                     if batch_path is None:
                         d = os.path.join(ROOT, "replays", self.pid if REPO == "/repo" else self.pid + "_alt")
@@ -484,7 +516,6 @@ class Ctx:
             self.notes["unreproduced_disagreements"] += [k for k, _ in unreproduced][:50]
             self.log("%d disagreement group(s) did not reproduce in a fresh process and are not reported: %s"
                      % (len(unreproduced), ", ".join(k for k, _ in unreproduced[:5])))
-        return body
 
     # -------------------------------------------------------------- verdicts
     def disagree(self, key, what, payload):
